@@ -19,6 +19,7 @@ import (
 	"runtime"
 	"sort"
 	"strings"
+	"sync"
 	"sync/atomic"
 	"testing"
 	"testing/synctest"
@@ -173,11 +174,18 @@ func (e *env) startRunner(dataDir string) {
 type slowStore struct {
 	inner store.DataStore
 	delay time.Duration
+	mu    sync.Mutex
+	n     int
 }
 
 func (s *slowStore) Load() (*store.PersistedData, error) { return s.inner.Load() }
 func (s *slowStore) Save(data *store.PersistedData) error {
-	time.Sleep(s.delay)
+	// the time a save takes varies (long, short, medium, ...): of two overlapping saves the later one would finish first
+	s.mu.Lock()
+	d := []time.Duration{s.delay * 2, s.delay / 7, s.delay}[s.n%3]
+	s.n++
+	s.mu.Unlock()
+	time.Sleep(d)
 	return s.inner.Save(data)
 }
 
